@@ -350,15 +350,42 @@ def exc_class(e):
     return 'Other:' + type(e).__name__
 
 
+class ImplTimeout(BaseException):
+    pass
+
+
+_TIMEOUTS = [0]
+
+
 def call_impl(f, *a, **k):
-    """Returns ('ok', value) or ('exc', class name)."""
-    import warnings
+    """Returns ('ok', value) or ('exc', class name).  An implementation call that gives no answer within PV_CALL_TIMEOUT seconds
+    (default 300; the inputs of the harnesses take milliseconds to seconds) is abandoned and reported as ('exc', 'Timeout...') - a call
+    that does not return has not returned the stated result; after two such calls the limit drops to 30 s so that a check still ends.
+    Only in the main thread and only when no other interval timer is armed (forked children of C20 arm their own alarm)."""
+    import warnings, signal, threading
+    limit = float(os.environ.get('PV_CALL_TIMEOUT', '300'))
+    if _TIMEOUTS[0] >= 2:
+        limit = min(limit, 30.0)
+    armed = False
+    if limit > 0 and threading.current_thread() is threading.main_thread() and signal.getitimer(signal.ITIMER_REAL)[0] == 0:
+        def on_alarm(signum, frame):
+            raise ImplTimeout()
+        old = signal.signal(signal.SIGALRM, on_alarm)
+        signal.setitimer(signal.ITIMER_REAL, limit)
+        armed = True
     try:
         with warnings.catch_warnings():
             warnings.simplefilter('ignore')
             return ('ok', f(*a, **k))
+    except ImplTimeout:
+        _TIMEOUTS[0] += 1
+        return ('exc', 'Timeout(no answer within %g s)' % limit)
     except Exception as e:
         return ('exc', exc_class(e))
+    finally:
+        if armed:
+            signal.setitimer(signal.ITIMER_REAL, 0)
+            signal.signal(signal.SIGALRM, old)
 
 
 def close(x, q, rel=1e-9, abs_=1e-12):
